@@ -54,7 +54,122 @@ Section QasmProofs.
     Proof. mat_entries closeU. Qed.
     Theorem qasm_rule_rz : spec_ZPow O r rc g = mscale O g (q_rz O r rc).
     Proof. mat_entries closeU. Qed.
+
+    (* HPowGate, generic exponent: ry(pi/4); rx(pi e); ry(-pi/4)   with q = exp(i pi/8) *)
+    Variables q qc : K.
+    Hypothesis Uq : q * qc = z1.
+    Hypothesis Q8 : q * q = w8 O.
+    Lemma qc_sq : qc * qc = w8c O.
+    Proof.
+      transitivity (qc * qc * (w8 O * w8c O)); [rewrite w8_unit; ring|].
+      rewrite <- Q8. transitivity ((q * qc) * (q * qc) * w8c O); [ring|]. rewrite Uq. ring.
+    Qed.
+    Theorem qasm_rule_hpow : spec_HPow O r rc g = mscale O (g * r) (mprod O 2 [q_ry O q qc; q_rx O r rc; q_ry O qc q]).
+    Proof.
+      pose proof qc_sq as QC8. unfold w8 in Q8. unfold w8c in QC8.
+      mat_entries ltac:(close_with ltac:(ring [U Uq Q8 QC8 qh2 qi2 qs22])).
+    Qed.
+
+    (* two-qubit families: emitted only when the exponent is odd, i.e. r*r = exp(i pi e) = -1 *)
+    Hypothesis Odd : r * r = - z1.
+    Ltac closeO := close_with ltac:(ring [U Odd qh2 qi2 qs22]).
+    Theorem qasm_rule_cz : spec_CZPow O r rc g = mscale O g (q_cz O).
+    Proof. mat_entries closeO. Qed.
+    Theorem qasm_rule_cx : spec_CXPow O r rc g = mscale O g (q_CX O).
+    Proof. mat_entries closeO. Qed.
+    Theorem qasm_rule_cy : spec_CYPow O r rc g = mscale O g (q_cy O).
+    Proof. mat_entries closeO. Qed.
   End Units.
+
+  (* ---- the remaining special exponents ---- *)
+  Theorem qasm_rule_y g : spec_YPow O ii (- ii) g = mscale O g (q_y O).
+  Proof. mat_entries close. Qed.
+  Theorem qasm_rule_z : spec_ZPow O ii (- ii) z1 = q_z O.
+  Proof. mat_entries close. Qed.
+  Theorem qasm_rule_s : spec_ZPow O (w8 O) (w8c O) z1 = q_s O.
+  Proof. mat_entries close. Qed.
+  Theorem qasm_rule_sdg : spec_ZPow O (w8c O) (w8 O) z1 = q_sdg O.
+  Proof. mat_entries close. Qed.
+  Theorem qasm_rule_t r rc : r * rc = z1 -> r * r = w8 O -> spec_ZPow O r rc z1 = q_t O.
+  Proof. intros U R. unfold w8 in R. mat_entries ltac:(close_with ltac:(ring [U R qh2 qi2 qs22])). Qed.
+  Theorem qasm_rule_tdg r rc : r * rc = z1 -> r * r = w8c O -> spec_ZPow O r rc z1 = q_tdg O.
+  Proof. intros U R. unfold w8c in R. mat_entries ltac:(close_with ltac:(ring [U R qh2 qi2 qs22])). Qed.
+  Theorem qasm_rule_h : spec_HPow O ii (- ii) z1 = q_h O.
+  Proof. mat_entries close. Qed.
+  Theorem qasm_rule_h0 : spec_HPow O z1 z1 z1 = q_id O.       (* exponent 0: id *)
+  Proof. mat_entries close. Qed.
+  Theorem qasm_rule_identity : mid O 2 = q_id O.
+  Proof. mat_entries close. Qed.
+  Theorem qasm_rule_swap g : spec_SwapPow O ii (- ii) g = mscale O g (q_swap O).
+  Proof. mat_entries close. Qed.
+
+  (* ---- three-qubit gates (exponent 1) ---- *)
+  Theorem qasm_rule_ccx g : spec_CCXPow O ii (- ii) g = mscale O g (q_ccx O).
+  Proof. mat_entries close. Qed.
+  Theorem qasm_rule_ccz g :
+    spec_CCZPow O ii (- ii) g = mscale O g (body_unitary O 3 [(q_h O, [2]); (q_ccx O, [0; 1; 2]); (q_h O, [2])]).
+  Proof. mat_entries close. Qed.
+  Theorem qasm_rule_ccy g :
+    spec_CCYPow O ii (- ii) g = mscale O g (body_unitary O 3 [(q_sdg O, [2]); (q_ccx O, [0; 1; 2]); (q_s O, [2])]).
+  Proof. mat_entries close. Qed.
+  Theorem qasm_rule_cswap : spec_CSwap O = q_cswap O.
+  Proof. reflexivity. Qed.
+
+  (* ---- u3 conventions ---- *)
+  Section U3.
+    Variables a ac bh bhc ch chc : K.
+    Hypothesis Ua : a * ac = z1.
+    Hypothesis Ub : bh * bhc = z1.
+    Hypothesis Uc : ch * chc = z1.
+    Ltac close3 := close_with ltac:(ring [Ua Ub Uc qh2 qi2 qs22]).
+    (* QasmUGate(theta,phi,lmda) is DEFINED by its decomposition rz(lmda pi); ry(theta pi); rz(phi pi); phase i^(phi+lmda):
+       that product is exactly the standard u3(theta pi, phi pi, lmda pi)    (cirq.rz(t) = ZPow with shift -1/2) *)
+    Theorem qasm_rule_u3 :
+      mscale O (bh * ch) (mprod O 2 [spec_ZPow O ch chc chc; spec_YPow O a ac ac; spec_ZPow O bh bhc bhc])
+      = q_u3 O a ac (bh * bh) (ch * ch).
+    Proof. mat_entries close3. Qed.
+    (* angles are reduced mod 2 half turns: theta + 2 pi changes the sign of a, a global sign of the matrix *)
+    Theorem qasm_u3_theta_period b c : q_u3 O (- a) (- ac) b c = mscale O (- z1) (q_u3 O a ac b c).
+    Proof. mat_entries close3. Qed.
+  End U3.
+  Section Phased.
+    Variables f fc r rc g : K.
+    Hypothesis Uf : f * fc = z1.
+    Hypothesis Ur : r * rc = z1.
+    Ltac closeP := close_with ltac:(ring [Uf Ur qh2 qi2 qs22]).
+    (* PhasedXPowGate(p, e): u3(pi*(-e), pi*(p+1/2), pi*(-p-1/2))      f = exp(i pi p) *)
+    Theorem qasm_rule_phasedx : spec_PhasedX O f fc r rc g = mscale O (g * r) (q_u3 O rc r (ii * f) (- ii * fc)).
+    Proof. mat_entries closeP. Qed.
+    (* e = -1/2: u2(pi*(p+1/2), pi*(-p-1/2));  e = 1/2: u2(pi*(p-1/2), pi*(-p+1/2)) *)
+    Theorem qasm_rule_phasedx_mhalf : spec_PhasedX O f fc (w8c O) (w8 O) g = mscale O (g * w8c O) (q_u2 O (ii * f) (- ii * fc)).
+    Proof. mat_entries closeP. Qed.
+    Theorem qasm_rule_phasedx_half : spec_PhasedX O f fc (w8 O) (w8c O) g = mscale O (g * w8 O) (q_u2 O (- ii * f) (ii * fc)).
+    Proof. mat_entries closeP. Qed.
+    (* PhasedXZGate(x, z, a) -> QasmUGate(theta = x, phi = z + a - 1/2, lmda = 1/2 - a)   fa = exp(i pi a), fz = exp(i pi z) *)
+    Variables fz fzc : K.
+    Hypothesis Uz : fz * fzc = z1.
+    Theorem qasm_rule_phasedxz : spec_PhasedXZ O f fc fz fzc r rc = mscale O r (q_u3 O r rc (- ii * f * fz) (ii * fc)).
+    Proof. mat_entries ltac:(close_with ltac:(ring [Uf Ur Uz qh2 qi2 qs22])). Qed.
+  End Phased.
+
+  (* ---- ControlledOperation with one qubit control on X, Y, Z, H (exponent 1, shift 0): cx, cy, cz, ch ---- *)
+  Theorem qasm_rule_ctrl_x : ctrl_matrix O [2] [[1]] (spec_XPow O ii (- ii) z1) = q_CX O.
+  Proof. mat_entries close. Qed.
+  Theorem qasm_rule_ctrl_y : ctrl_matrix O [2] [[1]] (spec_YPow O ii (- ii) z1) = q_cy O.
+  Proof. mat_entries close. Qed.
+  Theorem qasm_rule_ctrl_z : ctrl_matrix O [2] [[1]] (spec_ZPow O ii (- ii) z1) = q_cz O.
+  Proof. mat_entries close. Qed.
+
+  (* ---- closed forms of the two-qubit library gates ---- *)
+  Lemma q_CXr_lit : q_CXr O = [[z1; z0; z0; z0]; [z0; z0; z0; z1]; [z0; z0; z1; z0]; [z0; z1; z0; z0]].
+  Proof. mat_entries close. Qed.
+  Lemma q_cz_lit : q_cz O = mdiag O [z1; z1; z1; - z1]. Proof. mat_entries close. Qed.
+  Lemma q_swap_lit : q_swap O = [[z1; z0; z0; z0]; [z0; z0; z1; z0]; [z0; z1; z0; z0]; [z0; z0; z0; z1]].
+  Proof. mat_entries close. Qed.
+  Lemma q_crz_lit a ac : a * ac = z1 -> q_crz O a ac = mdiag O [z1; z1; ac; a].
+  Proof. intros U. mat_entries ltac:(close_with ltac:(ring [U qh2 qi2 qs22])). Qed.
+  Lemma q_cu1_lit a ac : a * ac = z1 -> q_cu1 O a ac = mdiag O [z1; z1; z1; a * a].
+  Proof. intros U. mat_entries ltac:(close_with ltac:(ring [U qh2 qi2 qs22])). Qed.
 
   (* the special exponents of XPowGate at global shift 0 *)
   Theorem qasm_rule_x : spec_XPow O ii (- ii) z1 = q_x O.
